@@ -304,15 +304,18 @@ impl<T> RawTable<T> {
         if bucket.in_main {
             self.table.replace_bucket_with(bucket.bucket, f)
         } else if let Some(ref mut lo) = self.leftovers {
-            let items = &mut lo.items;
-            let b = bucket.bucket.clone();
-            lo.table.replace_bucket_with(b, move |t| {
-                let v = f(t);
-                if v.is_none() {
-                    items.reflect_remove(&bucket.bucket);
-                }
-                v
-            })
+            // The cached iterator must hear about the removal _before_ it happens (that is
+            // `reflect_remove`'s contract), and before `f` runs, since `f` may panic after the
+            // element has already been taken out of the table.
+            let before = lo.items.clone();
+            lo.items.reflect_remove(&bucket.bucket);
+            let kept = lo.table.replace_bucket_with(bucket.bucket, f);
+            if kept {
+                // The element is back in the same slot with the same control byte, so the
+                // iterator as it was before the removal is exactly right again.
+                lo.items = before;
+            }
+            kept
         } else {
             unreachable!("invalid bucket state");
         }
